@@ -3,6 +3,7 @@ package main
 import (
 	"bytes"
 	"encoding/json"
+	"fmt"
 	"io"
 	"math/rand"
 
@@ -27,55 +28,61 @@ func ctrHash(h string) aesctrhmac.HashType {
 	return map[string]aesctrhmac.HashType{"SHA1": aesctrhmac.SHA1, "SHA256": aesctrhmac.SHA256, "SHA512": aesctrhmac.SHA512}[h]
 }
 
-func realKey(k keySpec) key.Key {
+// The keys are built from parameters the documentation declares legal; a refusal by Tink is Tink's behaviour,
+// so it is returned (and recorded by the callers), never a driver error.
+func realKey(k keySpec) (key.Key, error) {
 	kb := secretdata.NewBytesFromData(vt.Unhex(k.MainKey), insecuresecretdataaccess.Token{})
 	if k.Alg == "GCM" {
 		p, err := aesgcmhkdf.NewParameters(aesgcmhkdf.ParametersOpts{KeySizeInBytes: kb.Len(), DerivedKeySizeInBytes: k.KeySize,
 			HKDFHashType: gcmHash(k.Hkdf), SegmentSizeInBytes: int32(k.C)})
 		if err != nil {
-			vt.Fatal("aesgcmhkdf parameters: %v", err)
+			return nil, fmt.Errorf("aesgcmhkdf.NewParameters: %v", err)
 		}
 		kk, err := aesgcmhkdf.NewKey(p, kb)
 		if err != nil {
-			vt.Fatal("aesgcmhkdf key: %v", err)
+			return nil, fmt.Errorf("aesgcmhkdf.NewKey: %v", err)
 		}
-		return kk
+		return kk, nil
 	}
 	p, err := aesctrhmac.NewParameters(aesctrhmac.ParametersOpts{KeySizeInBytes: kb.Len(), DerivedKeySizeInBytes: k.KeySize,
 		HkdfHashType: ctrHash(k.Hkdf), HmacHashType: ctrHash(k.TagAlg), HmacTagSizeInBytes: k.Tag, SegmentSizeInBytes: int32(k.C)})
 	if err != nil {
-		vt.Fatal("aesctrhmac parameters: %v", err)
+		return nil, fmt.Errorf("aesctrhmac.NewParameters: %v", err)
 	}
 	kk, err := aesctrhmac.NewKey(p, kb)
 	if err != nil {
-		vt.Fatal("aesctrhmac key: %v", err)
+		return nil, fmt.Errorf("aesctrhmac.NewKey: %v", err)
 	}
-	return kk
+	return kk, nil
 }
 
-// a handle over the given keys (keyset order = slice order) with the given primary
-func handleOf(ks []keySpec, primary int) tink.StreamingAEAD {
+// the primitive of a handle over the given keys (keyset order = slice order) with the given primary
+func handleOf(ks []keySpec, primary int) (tink.StreamingAEAD, error) {
 	m := keyset.NewManager()
 	var ids []uint32
 	for _, k := range ks {
-		id, err := m.AddKey(realKey(k))
+		kk, err := realKey(k)
 		if err != nil {
-			vt.Fatal("AddKey: %v", err)
+			return nil, err
+		}
+		id, err := m.AddKey(kk)
+		if err != nil {
+			return nil, fmt.Errorf("Manager.AddKey: %v", err)
 		}
 		ids = append(ids, id)
 	}
 	if err := m.SetPrimary(ids[primary]); err != nil {
-		vt.Fatal("SetPrimary: %v", err)
+		return nil, fmt.Errorf("Manager.SetPrimary: %v", err)
 	}
 	h, err := m.Handle()
 	if err != nil {
-		vt.Fatal("Handle: %v", err)
+		return nil, fmt.Errorf("Manager.Handle: %v", err)
 	}
 	p, err := streamingaead.New(h)
 	if err != nil {
-		vt.Fatal("streamingaead.New: %v", err)
+		return nil, fmt.Errorf("streamingaead.New: %v", err)
 	}
-	return p
+	return p, nil
 }
 
 func paramsOf(k keySpec) map[string]any {
@@ -92,23 +99,36 @@ func (x *runner) runKeyset(sc scenario) {
 	x.tw.Emit(vt.Ev{"ev": "reset", "lvl": "keyset", "cands": cands, "writer": sc.Primary + 1, "scn": string(raw)})
 	defer x.tw.Emit(vt.Ev{"ev": "end"})
 	// the writer: a handle whose primary is the chosen key, or a foreign key with the parameters of the first
+	setupFailed := func(what string, err error) {
+		x.tw.Emit(vt.Ev{"ev": "Setup", "err": true, "what": what + ": " + err.Error()})
+	}
 	var wk keySpec
 	var enc tink.StreamingAEAD
+	var err error
 	if sc.Primary >= 0 {
 		wk = sc.Keys[sc.Primary]
-		enc = handleOf(sc.Keys, sc.Primary)
+		enc, err = handleOf(sc.Keys, sc.Primary)
 	} else {
 		wk = sc.Keys[0]
 		wk.MainKey = vt.Hex(vt.Bytes(rng, len(wk.MainKey)/2))
-		enc = handleOf([]keySpec{wk}, 0)
+		enc, err = handleOf([]keySpec{wk}, 0)
 	}
-	dec := handleOf(sc.Keys, rng.Intn(len(sc.Keys)))
+	if err != nil {
+		setupFailed("encrypting handle", err)
+		return
+	}
+	dec, err := handleOf(sc.Keys, rng.Intn(len(sc.Keys)))
+	if err != nil {
+		setupFailed("decrypting handle", err)
+		return
+	}
 	pt, aad := vt.Bytes(rng, sc.MaxN), vt.Bytes(rng, rng.Intn(20))
 	seg := wk.C - wk.Tag
 	f := seg - (1 + wk.KeySize + 7)
 	ct, err := encryptAll(enc, rng, aad, pt, f, seg)
 	if err != nil {
-		vt.Fatal("keyset level: encryption failed: %v", err)
+		setupFailed("encryption with the primary key", err)
+		return
 	}
 	wsc := scenario{P: seg, T: wk.Tag, Off: 1 + wk.KeySize + 7, Hdr: []int{1, wk.KeySize, 7}}
 	var (
@@ -139,8 +159,9 @@ func (x *runner) runKeyset(sc scenario) {
 			}
 			x.tw.Emit(vt.Ev{"ev": "Stream", "N": len(pt), "m": ms, "srcFail": o.SrcFail, "len": len(st)})
 			r, err = dec.NewDecryptingReader(src, a)
-			if err != nil || len(src.log) != 0 {
-				vt.Fatal("keyset level: NewDecryptingReader of the wrapped primitive failed or did I/O: %v", err)
+			if err != nil || len(src.log) != 0 { // the model's constructor succeeds without I/O
+				x.tw.Emit(vt.Ev{"ev": "Setup", "err": err != nil, "io": len(src.log), "what": fmt.Sprintf("NewDecryptingReader of the wrapped primitive: %v", err)})
+				return
 			}
 		case "Reads":
 			for k, after := 0, -1; k < o.Max && after != 0; k++ {
